@@ -410,10 +410,41 @@ def gen_spawn(rng):
         kind = rng.choice(["ret", "ret", "raise:%d" % (1 + rng.below(9)), "panic:%d" % (1 + rng.below(9))])
     elif form == "bspawn":
         kind = rng.choice(["ret", "ret", "panic:%d" % (1 + rng.below(9)), "raise:%d" % (1 + rng.below(9))])
-    nwait = 1 + rng.below(3)
+    nwait = 1 + rng.below(4)
     if form == "go":
         nwait = 1
-    return {"form": form, "vals": vals, "args": args, "assigns": assigns, "pokes": pokes, "kind": kind, "nwait": nwait}
+    # how and where each waiter waits: in the main goroutine one after the other, on threads started before the call is
+    # released (concurrent waiters), or on threads started after the main goroutine's waits (a later waiter elsewhere)
+    wplan = [{"style": rng.choice(WAIT_STYLES), "where": "main"}]
+    for _ in range(1, nwait):
+        wplan.append({"style": rng.choice(WAIT_STYLES), "where": rng.choice(["main", "thr", "late"])})
+    return {"form": form, "vals": vals, "args": args, "assigns": assigns, "pokes": pokes, "kind": kind, "nwait": nwait, "wplan": wplan}
+
+
+# tryfunc: try(func() { return [t.wait()] }, handler); trybound_h: try(t.wait, handler) - the bound method handed to try;
+# trybound: try(t.wait) - nil when wait raises; nested: the wait two script calls deep inside the tried function
+WAIT_STYLES = ["tryfunc", "tryfunc", "trybound_h", "trybound", "nested"]
+
+
+def wait_plan(sc):
+    return sc.get("wplan") or ([{"style": "tryfunc", "where": "main"}] + [{"style": "tryfunc", "where": "thr"}] * (sc["nwait"] - 1))
+
+
+def wait_stmt(k, style):
+    if style == "trybound_h":
+        return 'rec2("w", %d, wrapv(try(t.wait, func(e) { return string(e) })))' % k
+    if style == "trybound":
+        return 'rec2("w", %d, [try(t.wait)])' % k
+    if style == "nested":
+        return 'rec2("w", %d, try(func() { return [wait2(t)] }, func(e) { return string(e) }))' % k
+    return 'rec2("w", %d, try(func() { return [t.wait()] }, func(e) { return string(e) }))' % k
+
+
+def wait_want(sc, k, want):
+    """what waiter k records when the call's outcome is `want`"""
+    if wait_plan(sc)[k]["style"] == "trybound" and not want.startswith("val"):
+        return "val1(nil)"
+    return want
 
 
 def spawn_script(sc):
@@ -451,11 +482,15 @@ def spawn_script(sc):
             L.append('t := fail.spawn("E%s")' % kind.split(":")[1])
     else:
         L.append("t := hostspawn([%s], [%s])" % (argl, ", ".join("[%d, %d]" % p for p in sc["pokes"])))
+    plan = wait_plan(sc)
     if form != "go":
+        L.append('func wrapv(r) { if type(r) == "string" { return r }; return [r] }')
+        L.append("func wait1(th) { return th.wait() }")
+        L.append("func wait2(th) { return wait1(th) }")
         L.append("ws := []")
         for w in range(1, sc["nwait"]):
-            L.append('ws.append(spawn(func() { rec2("w", %d, try(func() { return [t.wait()] }, '
-                     'func(e) { return string(e) })) }))' % w)
+            if plan[w]["where"] == "thr":
+                L.append("ws.append(spawn(func() { %s }))" % wait_stmt(w, plan[w]["style"]))
     for x, v in sc["assigns"]:
         L.append("x%d = %d" % (x, v))
     if form in ("go", "spawn", "fnspawn"):
@@ -463,7 +498,12 @@ def spawn_script(sc):
     if form == "go":
         L.append('rec2("w", 0, [<-out])')
     else:
-        L.append('rec2("w", 0, try(func() { return [t.wait()] }, func(e) { return string(e) }))')
+        for w in range(sc["nwait"]):
+            if plan[w]["where"] == "main":
+                L.append(wait_stmt(w, plan[w]["style"]))
+        for w in range(sc["nwait"]):
+            if plan[w]["where"] == "late":
+                L.append("spawn(func() { %s }).wait()" % wait_stmt(w, plan[w]["style"]))
         L.append("for _, w := range ws { w.wait() }")
     L.append('"done"')
     return "\n".join(L)
@@ -1126,7 +1166,12 @@ def _body(res, tier, obs, model, proved):
         why = spawn_oracle(sc, got)
         if why:
             oracle_viol.append(dict(case, impl=got, why=why, src=spawn_script(sc)))
-        if exp is None or got != exp:
+        # try(t.wait) without a handler yields nil exactly when wait() raised: compared with the model as that outcome
+        gm = dict(got)
+        for w, pw in enumerate(wait_plan(sc)):
+            if exp and pw["style"] == "trybound" and not exp.get(w, "val").startswith("val") and got.get(w) == "val1(nil)":
+                gm[w] = exp[w]
+        if exp is None or gm != exp:
             corr.append(dict(case, impl=got, model=exp))
         else:
             dagree += 1
@@ -1425,7 +1470,9 @@ def _finish(res, evals, nontrivial, samples, stats, corr, oracle_viol, known, kn
                    "spawn() / fn.spawn(), receive forms <-c / c.receive() / three range forms, GOMAXPROCS 1/2/16, yields injected "
                    "in the script and in the host builtins; any number of ranging receivers. C: topologies with <= 3 messages, run "
                    "repeatedly, observed outcome must be among the outcomes of ALL model schedules (enumerated). D: spawn "
-                   "scenarios (5 spawn forms, return / raised error / Go panic, 1..3 waiters, reassignments and slice overwrites "
+                   "scenarios (5 spawn forms, return / raised error / Go panic, 1..4 waiters - each waiting through try(func), try(t.wait, handler), try(t.wait) or two calls deep, "
+                   "one after the other in the main goroutine, on threads started before the call ends or on threads started after the main goroutine's waits - "
+                   "every one must observe the call's outcome; reassignments and slice overwrites "
                    "after the spawn site). D2: launcher functions whose closures over "
                    "private locals are started as threads. D3: launch matrix - 1..3 threads per scenario, each a script function / "
                    "closure / result of a call / bound method of a list with a script callback (each, map, filter) / builtin with a "
@@ -1566,9 +1613,13 @@ def spawn_oracle(sc, got):
         want = "raised(%s)" % sc["kind"].split(":")[1]
     else:
         want = "panic(%s)" % sc["kind"].split(":")[1]
+    plan = wait_plan(sc)
     for w in range(sc["nwait"]):
-        if got.get(w) != want:
-            return "waiter %d observed %r, the spawned call's outcome is %s" % (w, got.get(w), want)
+        if got.get(w) != wait_want(sc, w, want):
+            return "waiter %d (%s, %s) observed %r, the spawned call's outcome is %s%s" % (
+                w, plan[w]["style"], {"main": "in the main goroutine", "thr": "on a thread started before the call ended",
+                                      "late": "on a thread started after the main goroutine's waits"}[plan[w]["where"]],
+                got.get(w), want, "" if wait_want(sc, w, want) == want else " (try(t.wait) without a handler gives nil)")
     return None
 
 
